@@ -33,7 +33,7 @@ def run(ctx):
         traces = [("replay", ctx.replay)]
     else:
         n = 60 if quick else 700
-        procs = [pipeline(ctx, "v" + v, "c07", [v, n]) for v in "ABCD"]
+        procs = [pipeline(ctx, "v" + v, "c07", [v, n]) for v in "ABCDEFG"]
         traces = []
         for p, t, d in procs:
             try:
